@@ -1,20 +1,23 @@
 #!/bin/bash
-# seedtest.sh <patch.diff> <secs> <ID>...   apply a seeded change to /repo, run the given checks, undo it.
-PATCH="$1"; SECS="$2"; shift 2
-cd /repo || exit 2
-if [ -n "$(git status --porcelain)" ]; then echo "seedtest: /repo not clean" >&2; exit 2; fi
-git apply "$PATCH" || { echo "seedtest: patch does not apply"; exit 2; }
-trap 'cd /repo && git checkout -q -- . && git clean -fdq' EXIT
-BIN=$(mktemp -d /tmp/seedtest.XXXXXX)
-/verif/build.sh $BIN/nutsim plain || { echo "seedtest: build failed"; rm -rf $BIN; exit 2; }
-case " $* " in *" C14 "*|*" C17 "*) /verif/build.sh $BIN/nutsim.race race || { echo "seedtest: race build failed"; rm -rf $BIN; exit 2; }; export NUTSIM_RACE_BIN=$BIN/nutsim.race;; esac
+# seedtest.sh <patch.diff> <secs> <ID>...   run the given checks (quick tier, <secs> each) against a scratch
+# worktree of /repo with a seeded change applied.  Works on private copies of /verif and /repo
+# (VERIF_DIR / VERIF_REPO): /repo's working tree and /verif/evidence are never touched.
+PATCH="$(realpath "$1")"; SECS="$2"; shift 2
+export GOFLAGS=-mod=mod GOPROXY=off GOSUMDB=off GOTOOLCHAIN=local
+SCR=$(mktemp -d /tmp/seedtest.XXXXXX)
+trap 'git -C /repo worktree remove --force '$SCR'/repo 2>/dev/null; git -C /repo worktree prune; rm -rf '$SCR EXIT
+git -C /repo worktree add -q --detach $SCR/repo HEAD || exit 2
+git -C $SCR/repo apply "$PATCH" || { echo "seedtest: patch does not apply"; exit 2; }
+mkdir -p $SCR/verif
+rsync -a --exclude .git --exclude bin --exclude evidence --exclude replays --exclude seeded --exclude benign /verif/ $SCR/verif/
+mkdir -p $SCR/verif/evidence $SCR/verif/replays
+export VERIF_DIR=$SCR/verif VERIF_REPO=$SCR/repo
+$SCR/verif/build.sh $SCR/nutsim plain || { echo "seedtest: build failed"; exit 2; }
+case " $* " in *" C14 "*|*" C17 "*) $SCR/verif/build.sh $SCR/nutsim.race race || { echo "seedtest: race build failed"; exit 2; }; export NUTSIM_RACE_BIN=$SCR/nutsim.race;; esac
 for id in "$@"; do
-  out=$($BIN/nutsim check -prop $id -tier quick -secs $SECS 2>&1)
+  out=$($SCR/nutsim check -prop $id -tier quick -secs $SECS 2>&1)
   rc=$?
   echo "== $id rc=$rc $(echo "$out" | grep -c '^VIOLATION') violation(s)"
-  echo "$out" | grep -A3 '^VIOLATION' | head -8 | cut -c1-300
+  echo "$out" | grep -A3 '^VIOLATION\|^check:' | head -8 | cut -c1-300
 done
-rm -rf $BIN
-# evidence files were rewritten by these runs against a modified tree: restore the committed ones
-cd /verif && git checkout -q -- evidence 2>/dev/null
-rm -f /verif/replays/*.json
+exit 0
